@@ -8,6 +8,7 @@ import (
 	"net"
 	"net/url"
 	"reflect"
+	"strconv"
 
 	"github.com/asaskevich/govalidator"
 	"github.com/c2h5oh/datasize"
@@ -155,6 +156,64 @@ func WholeNumberHook(f reflect.Kind, t reflect.Kind, data interface{}) (interfac
 		return nil, errors.Wrapf(ErrNotInteger, "%v", data)
 	}
 	return data, nil
+}
+
+var ErrNumberOutOfRange = stderrors.New("number is out of range")
+
+// NumberRangeHook rejects a number that the numeric field it is given for cannot hold.
+// The decoder itself converts with plain Go conversions, which wrap or saturate silently:
+// 300 for an int8 becomes 44, 1e19 for an int64 or a time.Duration becomes the most negative
+// value, 1e39 for a float32 becomes +Inf.
+// A negative number for an unsigned field is left to the decoder, which reports it.
+func NumberRangeHook(f reflect.Kind, t reflect.Kind, data interface{}) (interface{}, error) {
+	v := reflect.ValueOf(data)
+	fits := true
+	switch t {
+	case reflect.Int, reflect.Int8, reflect.Int16, reflect.Int32, reflect.Int64:
+		bits := kindBits(t)
+		switch f {
+		case reflect.Int, reflect.Int8, reflect.Int16, reflect.Int32, reflect.Int64:
+			fits = v.Int()>>(bits-1) == 0 || v.Int()>>(bits-1) == -1
+		case reflect.Uint, reflect.Uint8, reflect.Uint16, reflect.Uint32, reflect.Uint64:
+			fits = v.Uint()>>(bits-1) == 0
+		case reflect.Float32, reflect.Float64:
+			fits = -math.Ldexp(1, bits-1) <= v.Float() && v.Float() < math.Ldexp(1, bits-1)
+		}
+	case reflect.Uint, reflect.Uint8, reflect.Uint16, reflect.Uint32, reflect.Uint64:
+		bits := kindBits(t)
+		switch f {
+		case reflect.Int, reflect.Int8, reflect.Int16, reflect.Int32, reflect.Int64:
+			fits = v.Int() < 0 || bits == 64 || v.Int()>>bits == 0
+		case reflect.Uint, reflect.Uint8, reflect.Uint16, reflect.Uint32, reflect.Uint64:
+			fits = bits == 64 || v.Uint()>>bits == 0
+		case reflect.Float32, reflect.Float64:
+			fits = v.Float() < math.Ldexp(1, bits)
+		}
+	case reflect.Float32:
+		switch f {
+		case reflect.Float32, reflect.Float64:
+			fits = math.IsInf(v.Float(), 0) || !(math.Abs(v.Float()) > math.MaxFloat32)
+		}
+	}
+	if !fits {
+		return nil, errors.Wrapf(ErrNumberOutOfRange, "%v for %s", data, t)
+	}
+	return data, nil
+}
+
+// kindBits returns the size of an integer kind in bits.
+func kindBits(k reflect.Kind) int {
+	switch k {
+	case reflect.Int8, reflect.Uint8:
+		return 8
+	case reflect.Int16, reflect.Uint16:
+		return 16
+	case reflect.Int32, reflect.Uint32:
+		return 32
+	case reflect.Int64, reflect.Uint64:
+		return 64
+	}
+	return strconv.IntSize
 }
 
 // VariableInjectHook injects values into ${VAR_NAME} placeholders
